@@ -16,6 +16,7 @@ PUB = "rln/src/public.rs"
 HASH = "rln/src/hashers.rs"
 PH = "utils/src/poseidon/poseidon_hash.rs"
 UT = "rln/src/utils.rs"
+FFI = "rln/src/ffi.rs"
 
 # ---- C09
 m("C09-rp-arity5", HASH, "(5, 8, 60, 0),", "(5, 8, 56, 0),", "C09")
@@ -59,7 +60,7 @@ m("C16-batch-ok", SLED, "            .map_err(|_| PmtreeErrorKind::TreeError(Tre
 m("C16-config-keys-swapped", PMA, "        let temporary = config[\"temporary\"].as_bool();", "        let temporary = config[\"use_compression\"].as_bool();", "C16")
 m("C16-mode-lowspace", PMA, "            Some(\"LowSpace\") => Mode::LowSpace,", "            Some(\"LowSpace\") => Mode::HighThroughput,", "C16")
 m("C16-flush-noop", PUB, "    pub fn flush(&mut self) -> Result<()> {\n        self.tree.close_db_connection()", "    pub fn flush(&mut self) -> Result<()> {\n        let _ = &self.tree;\n        Ok(())", "C16")
-m("C16-create-default-config", PMA, "            Err(_) => pmtree::MerkleTree::new(depth, config.0)?,", "            Err(_) => pmtree::MerkleTree::new(depth, PmtreeConfig::default().0)?,", "C16")
+m("C16-create-default-config", PMA, "                pmtree::MerkleTree::new(depth, config.0)?\n", "                pmtree::MerkleTree::new(depth, PmtreeConfig::default().0)?\n", "C16")
 m("C16-load-unrecovered", SLED, "        if !db.was_recovered() {", "        if false && !db.was_recovered() {", "C16")
 m("C16-delete-err-swallowed", PMA, "        self.tree\n            .delete(index)\n            .map_err(|e| Report::msg(e.to_string()))?;", "        self.tree\n            .delete(index)\n            .map_err(|e| Report::msg(e.to_string()))\n            .unwrap_or_default();", "C16")
 
@@ -147,6 +148,54 @@ m("C08-pm-min-guard-removed", PMA, "                if indices[0] > start {\n   
 m("C08-atomic-indices-masked", PUB, "        let indices: Vec<usize> = indices.iter().map(|x| *x as usize).collect();", "        let indices: Vec<usize> = indices.iter().map(|x| (*x & 0x7f) as usize).collect();", "C08")
 m("C08-set-leaves-from-zero", PUB, "            .override_range(index, leaves.into_iter(), [].into_iter())\n            .map_err(|_| Report::msg(\"Could not set leaves\"))?;\n        Ok(())", "            .override_range(index.min(1 << 19), leaves.into_iter(), [].into_iter())\n            .map_err(|_| Report::msg(\"Could not set leaves\"))?;\n        Ok(())", "C08")
 m("C08-pm-remove-span-defaults", PMA, "            if indices.contains(&i) {\n                new_leaves.push(PmTreeHasher::default_leaf());\n            } else {\n                new_leaves.push(self.tree.get(i)?);\n            }", "            new_leaves.push(PmTreeHasher::default_leaf());", "C08")
+
+# ---- C02
+m("C02-rln-proof-root-or", PUB, "        Ok(verified && (self.tree.root() == proof_values.root) && (x == proof_values.x))", "        Ok(verified && ((self.tree.root() == proof_values.root) || (x == proof_values.x)))", "C02")
+m("C02-roots-skip-when-single", PUB, "        let roots_verified: bool = if roots.is_empty() {", "        let roots_verified: bool = if roots.len() <= 1 {", "C02")
+m("C02-x-not-bound", PUB, "        let partial_result = verified && (x == proof_values.x);", "        let partial_result = verified && (x == proof_values.x || signal.is_empty());", "C02")
+m("C02-verify-public-order", PROTO, "    // We re-arrange proof-values according to the circuit specification\n    let inputs = vec![\n        proof_values.y,\n        proof_values.root,", "    // We re-arrange proof-values according to the circuit specification\n    let inputs = vec![\n        proof_values.root,\n        proof_values.y,", "C02")
+# ---- C03
+m("C03-zero-guard-on-y", PROTO, "    if x1 == x2 {\n        return Err(\"cannot recover", "    if y1 == y2 {\n        return Err(\"cannot recover", "C03")
+m("C03-a0-uses-x2", PROTO, "    let a_0 = y1 - x1 * a_1;", "    let a_0 = y1 - x2 * a_1;", "C03")
+m("C03-recover-ignores-external-nullifier", PUB, "        if external_nullifier_1 == external_nullifier_2 {\n            // We extract the two shares", "        if external_nullifier_1 == external_nullifier_2 || proof_values_1.nullifier == proof_values_2.nullifier {\n            // We extract the two shares", "C03")
+m("C03-nullifier-hashes-a0", PROTO, "    // Nullifier\n    let nullifier = poseidon_hash(&[a_1]);", "    // Nullifier\n    let nullifier = poseidon_hash(&[a_0]);", "C03")
+# ---- C04
+m("C04-y-uses-message-id", PROTO, "    let y = a_0 + rln_witness.x * a_1;", "    let y = a_0 + rln_witness.message_id * a_1;", "C04")
+m("C04-root-branch-swapped", PROTO, "        if identity_path_index[i] == 0 {\n            root = poseidon_hash(&[root, path_elements[i]]);", "        if identity_path_index[i] != 0 {\n            root = poseidon_hash(&[root, path_elements[i]]);", "C04")
+m("C04-leaf-without-limit", PROTO, "    let mut root = poseidon_hash(&[id_commitment, *user_message_limit]);", "    let mut root = poseidon_hash(&[id_commitment, *identity_secret]);", "C04")
+m("C04-a1-order", PROTO, "    let a_1 = poseidon_hash(&[a_0, rln_witness.external_nullifier, rln_witness.message_id]);", "    let a_1 = poseidon_hash(&[a_0, rln_witness.message_id, rln_witness.external_nullifier]);", "C04")
+# ---- C10
+m("C10-proof-values-y-x-swapped-writer", PROTO, "    serialized.extend_from_slice(&fr_to_bytes_le(&rln_proof_values.x));\n    serialized.extend_from_slice(&fr_to_bytes_le(&rln_proof_values.y));", "    serialized.extend_from_slice(&fr_to_bytes_le(&rln_proof_values.y));\n    serialized.extend_from_slice(&fr_to_bytes_le(&rln_proof_values.x));", "C10")
+m("C10-fr-resize-31", UT, "    res.resize(fr_byte_size(), 0);\n    res\n}", "    res.resize(fr_byte_size() - 1, 0);\n    res.push(0);\n    res\n}", "C10")
+m("C10-witness-trailing-accepted", PROTO, "    if serialized.len() != all_read {\n        return Err(Report::msg(\"serialized length is not equal to all_read\"));", "    if serialized.len() < all_read {\n        return Err(Report::msg(\"serialized length is not equal to all_read\"));", "C10")
+m("C10-vec-len-u32", UT, "    let len = usize::try_from(u64::from_le_bytes(input[0..8].try_into()?))?;\n    read += 8;\n\n    if len > input.len() - 8 {", "    let len = usize::try_from(u32::from_le_bytes(input[0..4].try_into()?))?;\n    read += 8;\n\n    if len > input.len() - 8 {", "C10")
+# ---- C11
+m("C11-output-on-err", FFI, "                Err(err) => {\n                    std::mem::forget(output_data);\n                    eprintln!(\"execution error: {err}\");\n                    false\n                }\n            }\n        }\n    };\n    ($instance:expr, $method:ident, $output_arg:expr, $( $arg:expr ),* ) => {", "                Err(err) => {\n                    unsafe { *$output_arg = Buffer::from(&output_data[..]) };\n                    std::mem::forget(output_data);\n                    eprintln!(\"execution error: {err}\");\n                    false\n                }\n            }\n        }\n    };\n    ($instance:expr, $method:ident, $output_arg:expr, $( $arg:expr ),* ) => {", "C11")
+m("C11-get-leaf-calls-get-root", FFI, "    call_with_output_arg!(ctx, get_leaf, output_buffer, index)", "    let _ = index;\n    call_with_output_arg!(ctx, get_root, output_buffer)", "C11")
+m("C11-verify-bool-negated", FFI, "    call_with_bool_arg!(ctx, verify, proof_is_valid_ptr, proof_buffer)", "    let r = call_with_bool_arg!(ctx, verify, proof_is_valid_ptr, proof_buffer);\n    unsafe { *proof_is_valid_ptr = !*proof_is_valid_ptr };\n    r", "C11")
+m("C11-set-leaf-index-off", FFI, "    call!(ctx, set_leaf, index, input_buffer)", "    call!(ctx, set_leaf, index.saturating_sub(1), input_buffer)", "C11")
+# ---- C13
+m("C13-verify-len-guard-short", PUB, "        if input_byte.len() < 128 + 5 * fr_byte_size() {\n            return Err(Report::msg(\"input data is too short\"));", "        if input_byte.len() < 128 + 4 * fr_byte_size() {\n            return Err(Report::msg(\"input data is too short\"));", "C13")
+m("C13-canonical-check-dropped-verify", PUB, "        if serialize_proof_values(&proof_values) != input_byte[128..128 + read] {\n            return Err(Report::msg(\"non-canonical encoding of proof values\"));\n        }\n\n        let verified = verify_proof(&self.verification_key, &proof, &proof_values)?;\n\n        Ok(verified)", "        let _ = read;\n\n        let verified = verify_proof(&self.verification_key, &proof, &proof_values)?;\n\n        Ok(verified)", "C13")
+m("C13-recover-guard-second-input", PUB, "        if serialized.len() < 128 + 5 * fr_byte_size() {\n            return Err(Report::msg(\"input proof data 2 is too short\"));\n        }\n", "", "C13")
+m("C13-signal-len-guard-inclusive", PUB, "        if signal_len > serialized.len() - all_read {\n            return Err(Report::msg(\"signal length exceeds input data\"));\n        }\n        let signal: Vec<u8> = serialized[all_read..all_read + signal_len].to_vec();\n\n        let verified = verify_proof(&self.verification_key, &proof, &proof_values)?;\n        let x = hash_to_field(&signal);", "        if signal_len > serialized.len() {\n            return Err(Report::msg(\"signal length exceeds input data\"));\n        }\n        let signal: Vec<u8> = serialized[all_read..all_read + signal_len].to_vec();\n\n        let verified = verify_proof(&self.verification_key, &proof, &proof_values)?;\n        let x = hash_to_field(&signal);", "C13")
+
+# ---- later additions (R16-4, R06-4/5, R08-6, witness calculator)
+SLED = "utils/src/pm_tree/sled_adapter.rs"
+m("C16-create-on-any-load-error", PMA, "            // an existing tree that cannot be read must not be re-initialised\n            Err(e) => return Err(Report::msg(e.to_string())),", "            Err(_) => pmtree::MerkleTree::new(depth, config.0)?,", "C16")
+m("C16-load-opens-without-retry", SLED, "        let db = Self::new_with_tries(config, 0)?.0;", "        let db = config.open().map_err(|_| PmtreeErrorKind::DatabaseError(DatabaseErrorKind::CannotLoadDatabase))?;", "C16")
+m("C16-nothing-stored-for-open-failure", SLED, "                Err(PmtreeErrorKind::DatabaseError(\n                    DatabaseErrorKind::CustomError(format!(\n                        \"Cannot create database: {e} {config:#?}\"\n                    )),\n                ))", "                let _ = e;\n                Err(PmtreeErrorKind::DatabaseError(\n                    DatabaseErrorKind::CannotLoadDatabase,\n                ))", "C16")
+m("C18-retry-backoff-linear", SLED, "thread::sleep(Duration::from_millis(10u64.pow(tries)));", "thread::sleep(Duration::from_millis(10u64 * tries as u64));", "C18")
+m("C06-pm-set-skips-equal", PMA, "    fn set(&mut self, index: usize, leaf: FrOf<Self::Hasher>) -> Result<()> {\n        self.tree\n            .set(index, leaf)\n            .map_err(|e| Report::msg(e.to_string()))?;", "    fn set(&mut self, index: usize, leaf: FrOf<Self::Hasher>) -> Result<()> {\n        if self.tree.get(index).map_err(|e| Report::msg(e.to_string()))? != leaf {\n            self.tree\n                .set(index, leaf)\n                .map_err(|e| Report::msg(e.to_string()))?;\n        }", "C06")
+m("C06-pm-delete-other-index", PMA, "        self.tree\n            .delete(index)\n            .map_err(|e| Report::msg(e.to_string()))?;", "        self.tree\n            .delete(index & !1)\n            .map_err(|e| Report::msg(e.to_string()))?;", "C06")
+m("C06-full-subtree-root-start", FMT, "            let mut idx = self.capacity() + index - 1;\n            let mut nd = self.depth;", "            let mut idx = self.capacity() + index;\n            let mut nd = self.depth;", "C06")
+m("C06-opt-subtree-root-shift", OMT, "            Ok(self.get_node(n, index >> (self.depth - n)))", "            Ok(self.get_node(n, index >> (self.depth - n - 1)))", "C06")
+m("C06-full-parent-formula", FMT, "            Some(((index + 1) >> 1) - 1)", "            Some((index >> 1).saturating_sub(1))", "C06")
+m("C08-pm-span-clamped", PMA, "        let end = indices.last().unwrap() + 1;\n\n        // Positions of the span", "        let end = (indices.last().unwrap() + 1).min(self.tree.leaves_set());\n\n        // Positions of the span", "C08")
+m("C08-pm-dispatch-unsorted", PMA, "        indices.sort();\n", "", "C08")
+m("C08-full-filter-inclusive-range", FMT, "        for &i in indices.iter().filter(|&&i| i < start || i >= end) {", "        for &i in indices.iter().filter(|&i| !(start..=end).contains(i)) {", "C08")
+m("C08-benign-filter-as-range", FMT, "        for &i in indices.iter().filter(|&&i| i < start || i >= end) {", "        for &i in indices.iter().filter(|&i| !(start..end).contains(i)) {", "C08")
+m("C12-witness-calc-len-check-dropped", CALC, "        if len != value.len() {\n            return Err(Report::msg(format!(\"Invalid input length for {key}\")));\n        }\n", "        let _ = len;\n", "C12")
 
 
 def main():
